@@ -5,7 +5,7 @@
    points are Enc(k, r) for any key k over the alphabet and any revision r (in a well-formed store every
    stored key has that form). *)
 From KB Require Import Base.Cases Model.Coder Model.ReadSys Model.C03Cases Model.C13Cases
-  Proofs.Coder Proofs.ReadSys Proofs.ReadSysSnap Proofs.ReadSysThm Proofs.ReadSysSpec Proofs.ReadSysPart.
+  Proofs.Coder Proofs.ReadSys Proofs.ReadSysSnap Proofs.ReadSysThm Proofs.ReadSysSpec Proofs.ReadSysPart Proofs.ReadSysC13.
 Local Open Scope N_scope.
 
 (* fold splitting: the worker loop over X ++ Y is the two runs concatenated when no key occurs on both sides *)
@@ -54,6 +54,21 @@ Theorem C13_count : forall (V : list (@vrec bytes)) fv parts cur a b,
 Proof. exact c13_count. Qed.
 Print Assumptions C13_count.
 
+(* proved part of the oracle's soundness (C13_oracle_sound_full_statement below), at the level of a raw
+   dump that passes the executable well-formedness test: what the model computes on the dump for the
+   unpartitioned List, the partitioned List and the partitioned Count is the in-range snapshot of the
+   dump's versions — the first three clauses of c13_oracle's group verdict *)
+Theorem C13_oracle_sound_partial : forall s fv parts cur a b rev,
+  dump_wf s = true -> alpha a -> alpha b -> bcmp a b = Lt -> valid_parts parts a b ->
+  floor_check fv (eff rev cur) = FOk -> floor_check fv cur = FOk ->
+  let V := versions_of (data_of s) in
+  let K := in_range a b (snapshot V (eff rev cur)) in
+  list_model s fv single_part cur a b rev 0 = LResp cur K false /\
+  list_model s fv parts cur a b rev 0 = LResp cur K false /\
+  count_model s fv parts true cur a b = CResp cur (N.of_nat (length (in_range a b (snapshot V cur)))).
+Proof. exact c13_group_list_count_sound. Qed.
+Print Assumptions C13_oracle_sound_partial.
+
 (* every possible stream (any interleaving of the workers' sends): data batches all name the read
    revision, are non-empty and error-free; exactly one terminator, last; the streamed key-values are a
    permutation of the in-range snapshot (each key once, with the unpartitioned version) *)
@@ -65,17 +80,20 @@ Theorem C13_stream : forall (V : list (@vrec bytes)) fv parts cur a b rev out,
 Proof. exact c13_stream. Qed.
 Print Assumptions C13_stream.
 
-(* advertised keys when the engine lists its partitions in key order (fix 51e6ded): the scanner's adjusted borders *)
-Theorem C13_advertised_keys : forall bs lo, bs <> [] -> Forall border_ok (removelast bs) ->
-  advertised_keys true (pairs_of (lo :: bs)) = lo :: adj bs.
-Proof. exact advertised_sorted. Qed.
+(* GetPartitions for any tiling the engine reports, in any order (the engine's list is sorted first; fix 51e6ded
+   pulls interior borders back): the advertised keys are the scanner's adjusted borders *)
+Theorem C13_advertised_keys : forall parts cur a b, valid_parts parts a b ->
+  exists bs, bs <> [] /\ strict_chain (encode a 0 :: bs) /\ last bs (encode a 0) = encode b 0 /\
+             Forall border_ok (removelast bs) /\
+             get_partitions_model parts cur a b = (cur, N.of_nat (length bs), encode a 0 :: adj bs).
+Proof. exact get_partitions_tiling. Qed.
 Print Assumptions C13_advertised_keys.
 
 (* ... they ascend, interior keys are index-record positions, and the workers of the consecutive pairs
    together emit every qualifying key exactly once: their outputs concatenate to the in-range snapshot *)
-Theorem C13_advertised : forall (V : list (@vrec bytes)) R a b bs, wf_store V -> alpha a -> alpha b -> bcmp a b = Lt ->
-  bs <> [] -> strict_chain (encode a 0 :: bs) -> last bs (encode a 0) = encode b 0 -> Forall border_ok (removelast bs) ->
-  let keys := advertised_keys true (pairs_of (encode a 0 :: bs)) in
+Theorem C13_advertised : forall (V : list (@vrec bytes)) R parts cur a b,
+  wf_store V -> alpha a -> alpha b -> bcmp a b = Lt -> valid_parts parts a b ->
+  let keys := snd (get_partitions_model parts cur a b) in
   chain keys /\ Forall index_pos (interior keys) /\
   concat (map (fun p => wrun_top R (seg V (fst p) (snd p))) (pairs_of keys)) = in_range a b (snapshot V R).
 Proof. exact c13_advertised. Qed.
@@ -86,12 +104,14 @@ Print Assumptions C13_advertised.
 Definition C13_oracle_sound_full_statement : Prop :=
   forall c, c13_check c = true -> c13_oracle c <> Some 0.
 
-(* ---------- finding C13-F1: partitions listed out of key order are advertised as listed ---------- *)
-Theorem C13_advertised_unsorted_refuted :
-  exists (ps : list part), sort_parts ps <> ps /\
-    advertised_keys true ps = [encode [98] 0; encode [97] 0; encode [98] 0].
-Proof. exists [(encode [98] 0, encode [99] 0); (encode [97] 0, encode [98] 0)]. split; [vm_compute; discriminate|reflexivity]. Qed.
-Print Assumptions C13_advertised_unsorted_refuted.
+(* ---------- the sort in GetPartitions is needed (former finding C13-F1, fixed) ----------
+   advertised_keys applied to the engine's list as given — what GetPartitions did before the fix — yields
+   keys that are not ascending when the engine lists its partitions out of key order *)
+Example C13_unsorted_listing_needs_sort :
+  let ps := [(encode [98] 0, encode [99] 0); (encode [97] 0, encode [98] 0)] in
+  advertised_keys true ps = [encode [98] 0; encode [97] 0; encode [98] 0] /\
+  advertised_keys true (sort_parts ps) = [encode [97] 0; encode [98] 0; encode [99] 0].
+Proof. split; reflexivity. Qed.
 
 (* ---------- non-vacuity and necessity ---------- *)
 Definition k_a : bytes := [47; 114; 47; 97].   (* "/r/a" *)
@@ -122,7 +142,7 @@ Example C13_example_run :
   list_model (raw_of ex_store13) None ex_parts 106 [47; 114; 47] [47; 114; 48] 103 0
     = LResp 106 [(k_a, [50], 103); (k_a ++ [47; 98], [120], 102)] false /\
   count_model (raw_of ex_store13) None ex_parts true 106 [47; 114; 47] [47; 114; 48] = CResp 106 2 /\
-  get_partitions_model (fun lo hi => [(lo, encode k_a 104); (encode k_a 104, encode k_b 0); (encode k_b 0, hi)]) 106 [47; 114; 47] [47; 114; 48]
+  get_partitions_model ex_parts 106 [47; 114; 47] [47; 114; 48]
     = (106, 3, [encode [47; 114; 47] 0; encode k_a 0; encode k_b 0; encode [47; 114; 48] 0]).
 Proof. repeat split; vm_compute; reflexivity. Qed.
 
